@@ -133,7 +133,10 @@ pub fn plan(id: &str) -> Option<Plan> {
             rule: "scenario = cache (LRU/LFU/FIFO or default policy, max_size 1-4, TTL none/10ms/1s, private or shared store, 1-2 services) + 20-120 requests over 3-6 keys (one hot key) with ok/err outcomes, gaps of 0/1ms/TTL-1ms/TTL/TTL+1ms, overlapping misses on one key, cancelled misses, then a closing probe of every key; every response carries a fresh serial; a forking reference cache is driven by the log (lookup at call(), insertion when a miss resolves Ok); non-trivial iff >=1 hit happened after an eviction or expiry; distinct = (inner calls, outcomes, config) signature",
             assumptions: BASE_ASSUMPTIONS.to_vec(),
             floor: 50,
-            engines: vec![Engine { name: "sim", salt: 1, quick: 4000, thorough: 200_000, serial: false, run: Box::new(|s, t| c10::scenario(s, t)) }],
+            engines: vec![
+                Engine { name: "sim", salt: 1, quick: 4000, thorough: 200_000, serial: false, run: Box::new(|s, t| c10::scenario(s, t)) },
+                Engine { name: "stress", salt: 2, quick: 3, thorough: 16, serial: true, run: Box::new(|s, t| c10::stress(s, t.pick(30_000, 150_000))) },
+            ],
             extra: None,
         },
         "C11" => Plan {
